@@ -8,6 +8,9 @@ import time
 
 import z3
 
+# a runaway quantifier instantiation must end as `unknown`, not as an out-of-memory kill of some other process
+z3.set_param("memory_max_size", 3000)
+
 Z3_TIMEOUT_MS = int(os.environ.get("PYVC_Z3_TIMEOUT_MS", "30000"))
 MAX_HARD = int(os.environ.get("PYVC_MAX_HARD", "3"))
 INC_TIMEOUT_MS = int(os.environ.get("PYVC_INC_TIMEOUT_MS", "4000"))
